@@ -12,6 +12,9 @@ from .core import Report, Ob, ERROR, finish, run_replay
 
 
 def main(argv):
+    import warnings
+
+    warnings.simplefilter("ignore")
     try:
         from rdkit import RDLogger
 
